@@ -43,7 +43,7 @@ def ty_text(t):
     return t[0]
 
 
-LLVM14_MISSING = {"named-args", "uninitialised-field", "untyped-question", "!exists", "!div", "!tolower", "!toupper", "!range", "!getdagarg", "!getdagname", "!setdagarg",
+LLVM14_MISSING = {"repeated-include", "named-args", "uninitialised-field", "untyped-question", "!exists", "!div", "!tolower", "!toupper", "!range", "!getdagarg", "!getdagname", "!setdagarg",
                   "!setdagname", "!listremove", "!logtwo", "!listflatten", "!repr", "!initialized", "dump"}
 
 
@@ -1264,6 +1264,12 @@ class Gen:
                 self.file_body(inc["path"], inc["budget"], inc["includes"])
                 self.cur = path
                 self.feat("include")
+            if len(self.p.order) > 1 and self.r.random() < 0.12:
+                # a file that has already been indexed is included again (diamond / repeated include): no effect
+                again = self.r.choice([f for f in self.p.order if f != path] or [path])
+                self.w('include "%s"' % again.split("/")[-1])
+                self.nl()
+                self.feat("repeated-include")
             self.p.sites.append({"kind": "stmt-boundary", "path": path, "lo": self.here(), "hi": self.here()})
             self.statement(0)
             self.nl()
